@@ -4,6 +4,7 @@ import os
 import subprocess
 import tempfile
 import time
+from engine.ob import REPO_SRC  # noqa: E402
 from engine.ob import Obligation
 
 LEVEL = 'translation_validation'
@@ -20,8 +21,8 @@ STUBS = []
 TRUSTED = ['engine/smt/symexec.py (translator, validated against tests/test_classification.py inputs)', 'acorn parser bundled with node 20']
 ASSUMPTIONS = ['tags are ASCII strings']
 
-PY = '/repo/src/tally/classification.py'
-JS = '/repo/src/tally/spending_report.js'
+PY = REPO_SRC + '/tally/classification.py'
+JS = REPO_SRC + '/tally/spending_report.js'
 BUCKETS = [('income', 'income'), ('investment', 'investment'), ('transfer_in', 'transferIn'),
            ('transfer_out', 'transferOut'), ('spending', 'spending'), ('credits', 'credits')]
 
@@ -161,7 +162,7 @@ class Query:
     def __call__(self, **kw):
         import importlib
         import sys
-        sys.path.insert(0, '/repo/src')
+        sys.path.insert(0, REPO_SRC)
         cl = importlib.import_module('tally.classification')
         if self.kind == 'cashflow':
             p = cl.calculate_cash_flow(kw['income'], kw['spending'], kw['credits'])
@@ -182,7 +183,7 @@ def fallback_search(kind, which):
     import importlib
     import itertools
     import sys
-    sys.path.insert(0, '/repo/src')
+    sys.path.insert(0, REPO_SRC)
     cl = importlib.import_module('tally.classification')
     nan = float('nan')
     if kind == 'cashflow':
@@ -228,7 +229,7 @@ def validate_translator():
     import z3
     import sys
     from engine.smt import symexec as S
-    sys.path.insert(0, '/repo/src')
+    sys.path.insert(0, REPO_SRC)
     import importlib
     cl = importlib.import_module('tally.classification')
     py, js = S.PyModule(PY), S.JsModule(JS)
